@@ -61,9 +61,14 @@ func runFaultCase(segSize int, ops []string, plan *faultPlan, clearAfterOp int) 
 		d.Fault = plan.hook
 	}
 	var replay []string
+	onlyDelFaulted := false // the only calls that failed since the last clean reopen are DeleteRange calls
 	add := func(p, what, detail string) {
 		if len(fr.viols) < 6 {
 			fr.viols = append(fr.viols, Violation{Property: p, What: what, Detail: detail, Ops: append(append([]string(nil), replay...))})
+			if p == "C10" && onlyDelFaulted {
+				// the damage follows a DeleteRange that failed part-way: the truncation was not all-or-nothing (C04)
+				fr.viols = append(fr.viols, Violation{Property: "C04", What: "after a DeleteRange that failed part-way: " + what, Detail: detail, Ops: append(append([]string(nil), replay...))})
+			}
 		}
 	}
 	if plan != nil {
@@ -156,6 +161,7 @@ func runFaultCase(segSize int, ops []string, plan *faultPlan, clearAfterOp int) 
 			mem = obs
 			cands = []*refLog{obs.clone()}
 			failedOps = nil
+			onlyDelFaulted = false
 			if plan != nil && clearAfterOp >= 0 && i > clearAfterOp {
 				d.Fault = nil
 			}
@@ -213,6 +219,7 @@ func runFaultCase(segSize int, ops []string, plan *faultPlan, clearAfterOp int) 
 				}
 			}
 			cands = nc
+			onlyDelFaulted = ws[0] == "del" && (onlyDelFaulted || len(failedOps) == 0)
 			failedOps = append(failedOps, op)
 			fr.tags["failed:"+ws[0]] = true
 		default:
@@ -293,9 +300,40 @@ func suiteFault(seed uint64, tier string) *Report {
 		nw = 120
 	}
 	shapes := map[string]bool{}
-	for k := 0; k < nw; k++ {
+	for k := 0; k < nw+2; k++ {
 		cr := r.Fork()
 		segSize, ops := genFaultWorkload(cr)
+		if k >= nw {
+			// fixed shapes: the first append into a fresh segment file is a batch larger than the segment writer's
+			// 64 KiB commit buffer (k == nw: in a fresh log; k == nw+1: in the segment a rotation just created)
+			segSize, ops = 4096, nil
+			next := uint64(1)
+			st := func(n, size int) {
+				var toks []string
+				for j := 0; j < n; j++ {
+					toks = append(toks, logTok(&raft.Log{Index: next, Term: 3, Data: cr.Bytes(size + cr.Intn(64))}))
+					next++
+				}
+				ops = append(ops, "store "+strings.Join(toks, " "))
+			}
+			if k == nw+1 {
+				st(2, 1500)
+				st(2, 1500) // fills the 4 KiB segment: rotation
+			}
+			at := next
+			st(3, 30000)
+			// if the big batch failed on the fault, these retry its first two indexes (acknowledged appends over the
+			// rolled-back region); if it succeeded they are refused as non-contiguous and the two after them land
+			next = at
+			st(1, 20)
+			st(1, 20)
+			next = at + 3
+			st(1, 20)
+			st(1, 20)
+			ops = append(ops, "reopen")
+			st(1, 20)
+			ops = append(ops, "reopen")
+		}
 		dry := runFaultCase(segSize, ops, nil, -1)
 		for _, v := range dry.viols {
 			rep.Violations = append(rep.Violations, v)
